@@ -39,7 +39,8 @@ From Coq Require Import QArith ZArith List Bool Lia Arith Sorted Morphisms.
 From Coq Require String.
 From CC Require Import Base.XQ Base.ListX Base.Ident Spec.Survey Spec.Merge Model.CubeCounts
      Model.Subtotals Model.SubtotalIds Model.Proportions Model.Variance Model.Zscore
-     Proofs.CubeCountsProofs Proofs.MergeIds Proofs.MergeSum Proofs.MergeSurvey Proofs.MergeMeasures.
+     Proofs.CubeCountsProofs Proofs.MergeIds Proofs.MergePhantom Proofs.MergeSum Proofs.MergeSurvey
+     Proofs.MergeMeasures.
 Import ListNotations.
 Local Close Scope Q_scope.
 Local Open Scope nat_scope.
@@ -87,6 +88,32 @@ Print Assumptions C04_valid_subtotal_has_a_term.
 Theorem C04_is_difference ids d : is_difference ids d = has_subs (subtotal_of ids d).
 Proof. exact (is_difference_has_subs ids d). Qed.
 Print Assumptions C04_is_difference.
+
+(* a subtotal is a difference iff SOME id listed in kwargs.negative is the id of a valid element;
+   the raw list being non-empty is not enough *)
+Theorem C04_is_difference_iff_valid_negative ids d :
+  is_difference ids d = true <-> exists x, In x (negative_terms d) /\ In x ids.
+Proof. exact (is_difference_iff ids d). Qed.
+Print Assumptions C04_is_difference_iff_valid_negative.
+
+(* kwargs.negative lists ONLY stale / missing / wrongly typed ids: nothing is subtracted, the
+   subtotal is not a difference and is the very subtotal of the insertion without the negative
+   list - so the value, NaN-override, intersection and MERGE theorems below (all stated on the
+   resolved [subtotal]) apply to it as to any plain subtotal, and it passes the gauntlet exactly
+   when the plain insertion does *)
+Theorem C04_phantom_negative_is_plain ids d :
+  (forall x, In x (negative_terms d) -> ~ In x ids) ->
+  is_difference ids d = false /\
+  s_sub (subtotal_of ids d) = [] /\
+  subtotal_of ids d = subtotal_of ids (without_negative d).
+Proof. exact (phantom_negative_is_plain ids d). Qed.
+Print Assumptions C04_phantom_negative_is_plain.
+
+Theorem C04_phantom_negative_gauntlet ids d :
+  (forall x, In x (negative_terms d) -> ~ In x ids) ->
+  valid_subtotal ids d = valid_subtotal ids (without_negative d).
+Proof. exact (phantom_negative_valid ids d). Qed.
+Print Assumptions C04_phantom_negative_gauntlet.
 
 (* the value: listed addends minus listed subtrahends, each valid element at most once per side.
    [signed_sum ids d g] = Sum_i [id_i in positive] g i  -  Sum_i [id_i in negative] g i          *)
@@ -541,6 +568,23 @@ Example C04_example_resolution :
                     mkInsDict true true false true true [IInt 99] [] [INone];
                     d] = [mkSub [0; 2] [1]].
 Proof. vm_compute. repeat split; reflexivity. Qed.
+
+(* valid ids 1 2 3 4 ("Don't know" 8 is flagged missing, 9 was deleted): "a+b less DK" and
+   "a+b (net)" subtract nothing and are plain subtotals; "c-d" is the only difference *)
+Example C04_example_phantom_negative :
+  let ids := [IInt 1; IInt 2; IInt 3; IInt 4] in
+  let ins neg := mkInsDict true true false true true [IInt 1; IInt 2] [IInt 1; IInt 2] neg in
+  differences_of ids [ins []; ins [IInt 9]; ins [IInt 8]; ins [IInt 8; IInt 9];
+                      mkInsDict true true false true true [IInt 3] [] [IInt 4]]
+    = [false; false; false; false; true] /\
+  subtotals_of ids [ins []; ins [IInt 9]; ins [IInt 8; IInt 9]]
+    = [mkSub [0; 1] []; mkSub [0; 1] []; mkSub [0; 1] []] /\
+  (forall x, In x (negative_terms (ins [IInt 8; IInt 9])) -> ~ In x ids).
+Proof.
+  cbv zeta. split; [vm_compute; reflexivity|]. split; [vm_compute; reflexivity|].
+  intros x Hx Hi. simpl in Hx, Hi.
+  destruct Hx as [<-|[<-|[]]]; destruct Hi as [H|[H|[H|[H|[]]]]]; discriminate H.
+Qed.
 
 (* a 4 x 2 table (4th row category missing), rows 0 and 2 merged *)
 Definition ex_S : survey :=
